@@ -76,7 +76,9 @@ def verify(ctx, rng, out, src, order, n, il, xl, q, mode, desc):
         grid[i, x] = src['traces'][t]
     with SgzReader(out) as r:
         m = MODEL.get('m')
-        if m is not None:
+        if m is not None and not desc.get('segyio_reports_structured'):
+            # (when segyio itself takes the file for a regular cube - the recorded finding KF-C08-segyio-structured - the
+            #  converter runs its regular route and Model/Irregular does not describe that execution)
             # K: Model/Irregular.inferRange vs the grid in the written header; Irregular.populated (ordinal -> grid slot)
             # vs the reader's mapping, from the stored inline-number array
             import struct as _st
